@@ -266,7 +266,7 @@ Proof. unfold Fq, Sq; cbn [dq sfrom set_from]. rewrite upd_same. intros [E|E]; r
 Ltac mk := apply inv_mk; [assumption|assumption|assumption| | | |].
 Ltac mkfin := rewrite fst_let_finish; apply inv_finish; [assumption|assumption|assumption| | | |].
 Ltac hsimp :=
-  unfold held; cbn [pc with_pc cur prog fstt set_fs set_to];
+  unfold held; cbn [pc with_pc cur prog fstt set_fs set_to set_from set_dq];
   repeat match goal with
   | |- context [Fq (set_fs ?s ?f ?v)] => change (Fq (set_fs s f v)) with (Fq s)
   | |- context [Sq (set_fs ?s ?f ?v)] => change (Sq (set_fs s f v)) with (Sq s)
@@ -366,16 +366,14 @@ Proof.
     destruct (dq s (sfrom s 0)) eqn:EF.
     + unfold next_ret. destruct k; try contradiction.
       * destruct Hloc as (Hc & Hst & H13).
-        rewrite fst_let_finish.
-        match goal with |- context [fst (let '(e, T') := ?X in _)] => destruct X as [e1 T1] eqn:EX end.
+        match goal with |- context [finish ?a ?b ?c ?d] => destruct (finish a b c d) as [e1 T1] eqn:EX end.
         cbn [fst]. replace T1 with (snd (finish 0 T (if Z.eqb st 3 then 0 else cur T) (Zn (if Z.eqb st 3 then 0 else cur T))))
           by (rewrite EX; reflexivity).
         apply inv_finish; auto.
         -- intros g. destruct (Z.eqb_spec st 3); [|exact (Hfib g)].
            pose proof (Hfib (cur T)) as []. fibs Hfib g.
         -- destruct (Z.eqb_spec st 3); [left; reflexivity|right; lia].
-      * rewrite fst_let_finish.
-        match goal with |- context [fst (let '(e, T') := ?X in _)] => destruct X as [e1 T1] eqn:EX end.
+      * match goal with |- context [finish ?a ?b ?c ?d] => destruct (finish a b c d) as [e1 T1] eqn:EX end.
         cbn [fst]. replace T1 with (snd (finish 0 T (cur T) (Zn (cur T)))) by (rewrite EX; reflexivity).
         apply inv_finish; auto. left. exact Hloc.
     + cbn [fst]; mk; try (intros _; exact Hto'); try exact Hprog; try (intros g; hsimp; exact (Hfib g)).
@@ -424,8 +422,10 @@ Proof.
     + destruct Hts0 as [[Habs _]|[Hts1 H2]]; [discriminate|].
       cbn [fst]. mk; try (intros _; exact Hto'); try exact Hprog.
       * intros g. hsimp. pose proof (Hfib (cur T)) as []. pose proof (Hfib nf) as []. fibs Hfib g.
-      * unfold lok; cbn. rewrite upd_same. rewrite Hts1. split; auto.
-        pose proof (Hfib (cur T)) as []. pose proof (Hfib nf) as []. fibs Hfib (cur T).
+      * assert (Hne : cur T <> nf).
+        { intros E. pose proof (Hfib nf) as [H1 _ _ _ _]. cbn [cnt] in H1.
+          rewrite cnt_opt, <- E, !Nat.eqb_refl in H1. destruct (Nat.eqb_spec (cur T) 0); lia. }
+        unfold lok; cbn. rewrite upd_same, upd_other by auto. rewrite Hts1. auto.
   - (* PL1 *)
     unfold lb_continue. rewrite Hn. rewrite lb_scan_1thread.
     match goal with |- context [lb_ret ?s1 _ _ _] => set (s1' := s1) end.
@@ -433,13 +433,13 @@ Proof.
     + cbn [fst]. apply inv_mk; auto.
       * intros g. hsimp. rewrite Hc. exact (Hfib g).
       * unfold lok; cbn. exact Hc.
-    + match goal with |- context [fst (let '(e, T') := ?X in _)] => destruct X as [e1 T1] eqn:EX end.
+    + match goal with |- context [finish ?a ?b ?c ?d] => destruct (finish a b c d) as [e1 T1] eqn:EX end.
       cbn [fst]. replace T1 with (snd (finish 0 T (cur T) 0%Z)) by (rewrite EX; reflexivity).
       apply inv_finish; auto.
   - (* PL2 *) contradiction.
   - (* PI1 *)
     destruct Hloc as [Hc Hnf]. 
-    match goal with |- context [fst (let '(e, T') := ?X in _)] => destruct X as [e1 T1] eqn:EX end.
+    match goal with |- context [finish ?a ?b ?c ?d] => destruct (finish a b c d) as [e1 T1] eqn:EX end.
     cbn [fst]. replace T1 with (snd (finish 0 T nf (Zn nf))) by (rewrite EX; reflexivity).
     apply inv_finish; auto.
     + intros g. hsimp. rewrite Hc in *. pose proof (Hfib nf) as []. fibs Hfib g.
